@@ -327,3 +327,25 @@ Proof.
       rewrite Hr by lia. replace (flat_pos idx sh <? Z.of_nat n) with true by lia.
       unfold C. now rewrite unravel_flat_pos.
 Qed.
+
+(* ------------------------------------------------------------------ node-level statements *)
+Lemma elementwise_spec_ext f g a sa b sb r rs :
+  (forall x y, f x y = g x y) -> elementwise_spec f a sa b sb r rs -> elementwise_spec g a sa b sb r rs.
+Proof. intros H (L & S). split; [exact L|]. intros idx Hin. rewrite <- H. now apply S. Qed.
+
+Definition arith_hyps (t0 t1 tr : ty) (a b : list Z) : Prop :=
+  is_leaf t0 = true /\ is_leaf t1 = true /\ st_of t0 = st_of t1 /\
+  bcast_to (dims t0) (dims tr) /\ bcast_to (dims t1) (dims tr) /\
+  length a = Z.to_nat (prod_list (dims t0)) /\ length b = Z.to_nat (prod_list (dims t1)).
+
+Lemma arith_node_spec k f t0 t1 tr a b :
+  (forall st x y, k st x y = f x y mod modulus st) ->
+  arith_hyps t0 t1 tr a b ->
+  exists r, eval_arith k t0 t1 tr (VArr a) (VArr b) = Ok (VArr r) /\
+    elementwise_spec (fun x y => f x y mod modulus (st_of t0)) a (dims t0) b (dims t1) r (dims tr).
+Proof.
+  intros Hk (L0 & L1 & Hst & B0 & B1 & La & Lb).
+  destruct (arith_spec k t0 t1 tr a b L0 L1 B0 B1 La Lb) as (r & E & S).
+  exists r. split; [exact E|]. eapply elementwise_spec_ext; [|exact S].
+  intros x y. cbv beta. rewrite Hk. now rewrite arith_st_same.
+Qed.
